@@ -84,11 +84,12 @@ _PREC_IF = 75
 _PREC_LOGICAL_OR = 80
 _PREC_LOGICAL_AND = 90
 
+_PREC_COMPARISON = 100
+
 _PREC_BITWISE_OR = 120
 _PREC_BITWISE_XOR = 125
 _PREC_BITWISE_AND = 130
 
-_PREC_COMPARISON = 200
 _PREC_SHIFT = 205
 _PREC_PLUS = 210
 _PREC_TIMES = 220
